@@ -35,7 +35,7 @@ SLICES = {
     "D-breaks": ("a: \"\r\n\x85\u2028", 6, 7, True),
     "E-tabs-bom": ("a: \n#\t\ufeff", 6, 7, False),
     "F-dash-flow": ("a: \n-?[]{},&*!%@`", 4, 5, True),
-    "G-tab-quote": ("a:\"' \t\n", 6, 7, True),
+    "G-tab-quote": ("a:\"' \t\n\\", 6, 7, True),
     "H-tab-plain-block": ("a:|> \t\n#", 6, 7, True),
     "J-unicode-space": ("a: \n\u00a0\u3000\u2003#'", 6, 7, True),
     "I-unicode-digits": ("a:|>+1\u00b2\u0663 \n", 6, 7, False),
